@@ -67,6 +67,17 @@ func VerifC12_RoundTrip() {
 		d2, e2 = DecryptValueKey(enc, pass2)
 	}
 	verif_Assert(e2 != nil && d2 == nil, "decryption with a different passphrase returns an error and no data")
+	// decrypting — successfully or not — leaves the encrypted value as it was: it
+	// still equals a fresh encryption and still decrypts
+	verif_Assert(bytes.Equal(enc, enc2), "an encrypted value is not changed by decrypting it or by a failed attempt to")
+	var d3 []byte
+	var e3 error
+	if meta {
+		d3, e3 = DecryptMetadata(enc, pass)
+	} else {
+		d3, e3 = DecryptValueKey(enc, pass)
+	}
+	verif_Assert(e3 == nil && bytes.Equal(d3, payload), "and it decrypts again")
 }
 
 // C12 (c): decryption of arbitrary bytes is total and fails closed.
@@ -134,12 +145,19 @@ func VerifC12_ValueKeySplit() {
 func VerifC12_SecondMultihash() {
 	n := verif_Choose("mhLen", 2, 6)
 	mh := multihash.Multihash(verif_Bytes("mh", n))
+	if verif_Bool("originalIsItselfADoubleSha256Multihash") {
+		// a content hash of the same kind as the second hash (a concrete one: its second
+		// hash is then computed for real)
+		var serr error
+		mh, serr = multihash.Sum([]byte("some content"), multihash.DBL_SHA2_256, -1)
+		verif_Assume(serr == nil)
+	}
 	h1 := SecondMultihash(mh)
 	h2 := SecondMultihash(mh)
 	verif_Reach("hashed")
 	verif_Assert(bytes.Equal(h1, h2), "second hash is deterministic")
 	verif_Assert(len(h1) == 34 && h1[0] == multihash.DBL_SHA2_256 && h1[1] == 32, "second hash is a dbl-sha2-256 multihash with a 32-byte digest")
-	verif_Assert(!bytes.Equal(h1, mh), "second hash differs from the original (inputs up to 6 bytes)")
+	verif_Assert(!bytes.Equal(h1, mh), "second hash differs from the original")
 	d, derr := multihash.Decode(h1)
 	verif_Assert(derr == nil && d.Code == multihash.DBL_SHA2_256 && d.Length == 32, "second hash decodes as dbl-sha2-256")
 }
